@@ -388,10 +388,12 @@ def sym_computed_pkg(vc):
             for x in (v.d.values() if isinstance(v, PyDict) else v.items):
                 mutable_parts(x, acc)
         return acc
-    for tkind in ('name', 'spec', 'spec-nested'):
+    for tkind in ('name', 'spec', 'spec-nested', 'name-inferred'):
         def thunk(it, tkind=tkind):
             maker = real_function(it, 'dataflows.processors.add_computed_field', 'add_computed_field')
             tname = sym_str(it, 'target')
+            if tkind == 'name-inferred':
+                return thunk_inferred(it, maker, tname)
             target = tname if tkind == 'name' else PyDict({'name': tname, 'type': sym_str(it, 'ttype')})
             if tkind == 'spec-nested':
                 # a field descriptor with structured properties (constraints, a list of enum values)
@@ -432,6 +434,49 @@ def sym_computed_pkg(vc):
                   set(f0.d) == {'target', 'operation', 'with'})
         paths = vc.explore(fk, thunk, min_paths=2)
         expect_no_raise_or_same(vc, fk, paths)
+
+
+def thunk_inferred(it, maker, tname):
+    """a target given by name, an arithmetic operation: the type written into a resource's schema is the one get_type
+    (under its own contract, item add_computed_field.get_type -- here an uninterpreted function of its arguments) gives for
+    THAT resource's fields, the spec's source and operation -- for an arbitrary resource of an arbitrary package, so a type
+    worked out from another resource's schema (or once per package) fails here"""
+    from pyvc.api import LoopSpec, check, cover, sym_str, PyDict, PyList, wrap, StrS
+    from pyvc.values import Builtin
+    from contracts.common import mk_package2, tree_writes_under
+    m = it.module('dataflows.processors.add_computed_field')
+    calls = []
+
+    def get_type_stub(it_, res_fields, operation_fields, operation):
+        r = wrap(it_.fresh('inferred_type', StrS))
+        calls.append((res_fields, operation_fields, operation, r))
+        return r
+    m.attrs['get_type'] = Builtin('get_type', get_type_stub)
+    source = PyList([sym_str(it, 'src0'), sym_str(it, 'src1')])
+    f0 = PyDict({'target': tname, 'operation': 'sum', 'source': source})
+    func = it.call(maker, [PyList([f0])], dict(resources=None))
+    package = mk_package2(it)
+
+    def res_start(it, env, rd):
+        del calls[:]
+        return rd
+
+    def res_end(it, env, rd, events):
+        ws = tree_writes_under(events, rd)
+        apps = [e for e in ws if e.kind == 'Append']
+        ok = len(ws) == 1 and len(apps) == 1 and apps[0].obj is rd.children['schema'].children['fields']
+        check(it, 'exactly-one-field-appended-to-schema.fields[name-inferred]', ok)
+        if ok:
+            v = apps[0].value
+            d = dict(v[1:]) if isinstance(v, tuple) and v and v[0] == 'dict' else None
+            mine = [c for c in calls if c[0] is rd.children['schema'].children['fields']]
+            check(it, 'type-inferred-from-this-resources-own-fields[name-inferred]', d is not None and len(mine) == 1 and
+                  len(calls) == 1 and mine[0][1] is source and mine[0][2] == 'sum' and d.get('name') is tname and
+                  d.get('type') is mine[0][3])
+        cover(it, 'resource-iter-reachable[name-inferred]')
+    it.loops['func#L0'] = LoopSpec(at_start=res_start, at_end=res_end)
+    it.loops['func#L2'] = LoopSpec(modes=('exit',))
+    it.run_generator(it.call(func, [package]))
 
 
 SELECT_SPEC = '''
